@@ -20,7 +20,21 @@ func main() {
 	if t := os.Getenv("VERIF_TIER"); t == "quick" || t == "thorough" {
 		tier = t
 	}
-	// child modes (crash-prone workloads run in their own process)
+	// child modes: `verif child <name> <tier> <outfile>` runs a check body in this (possibly
+	// sanitizer-instrumented or differently tagged) build and exports what it observed
+	if os.Args[1] == "child" && len(os.Args) >= 5 {
+		fn, ok := checks.ChildRuns[os.Args[2]]
+		if !ok {
+			fmt.Println("unknown child", os.Args[2])
+			os.Exit(2)
+		}
+		run := mon.NewRun(strings.ToUpper(os.Args[2][:3]), os.Args[3])
+		fn(run)
+		if err := os.WriteFile(os.Args[4], run.Export(), 0o644); err != nil {
+			os.Exit(3)
+		}
+		os.Exit(0)
+	}
 	if fn, ok := checks.Children[os.Args[1]]; ok {
 		os.Exit(fn(os.Args[2:]))
 	}
